@@ -43,7 +43,7 @@ func gen(p *simrt.Tape) any {
 	pl.AggregationDelay = slot * 2 / 3
 	pl.MaxSyncMessageDelay = slot / 3
 	pl.SyncAggregationDelay = slot * 2 / 3
-	nOurs := p.Range(2, 6)
+	nOurs := p.Range(1, 6)
 	perm := make([]int, pl.TotalValidators)
 	for i := range perm {
 		perm[i] = i
@@ -67,8 +67,8 @@ func gen(p *simrt.Tape) any {
 	for i := 0; i < 4; i++ {
 		pl.HeadLatencyMs = append(pl.HeadLatencyMs, []int{400, 1000, 3000, 5000}[p.Pick(4)])
 	}
-	if p.Pct(40) {
-		pl.Reorgs = append(pl.Reorgs, syssim.Reorg{Slot: startSlot + 1 + uint64(p.Intn(int(pl.SlotsPerEpoch))), Kind: p.Pick(3)})
+	if p.Pct(50) {
+		pl.Reorgs = append(pl.Reorgs, syssim.Reorg{Slot: startSlot + 1 + uint64(p.Intn(int(2*pl.SlotsPerEpoch))), Kind: p.Pick(3)})
 	}
 	return pl
 }
@@ -282,6 +282,57 @@ func oracle(rec *syssim.Record, out *sim.Outcome) *simrt.Violation {
 					}
 					return Viol("C14/future-duty-not-subscribed", "duties for epoch %d obtained at %v (current slot %d) include validator %d in future slot %d, but no subscription request followed", f.Epoch, f.EndT, cur, d.ValidatorIndex, d.Slot)
 				}
+			}
+		}
+	}
+
+	// (a2) the duties the controller itself obtains for scheduling must be covered by a subscription too:
+	// every future (slot, committee) of the last duties answer for an epoch appears in a request made
+	// at or after that answer was asked for.
+	for _, inc := range rec.Incs {
+		var ctl []*syssim.DutyFetch
+		for _, f := range rec.H.Fetches {
+			if f.Kind == "attester" && f.Inc == inc.N {
+				ctl = append(ctl, f)
+			}
+		}
+		for i, f := range ctl {
+			if f.Err || f.EndStep == 0 {
+				continue
+			}
+			superseded := false
+			for _, g := range ctl[i+1:] {
+				if g.Epoch == f.Epoch {
+					superseded = true
+				}
+			}
+			if superseded || f.EndT+5*time.Second > endOfRun || (inc.End >= 0 && inc.End < f.EndT+5*time.Second) {
+				continue
+			}
+			cur := slotAt(f.EndT)
+			margin := uint64(0)
+			if slotStart(cur+1)-f.EndT < 2*time.Second {
+				margin = 1 // the request may legitimately straddle the slot boundary
+			}
+			for _, d := range f.Att {
+				if uint64(d.Slot) <= cur+margin || uint64(d.Slot)/pl.SlotsPerEpoch != f.Epoch {
+					continue
+				}
+				covered := false
+				for _, sub := range rec.H.Subs("BeaconCommitteeSubscriptions") {
+					if sub.Inc != inc.N || sub.T < f.T {
+						continue
+					}
+					for _, en := range sub.Obj.([]*apiv1.BeaconCommitteeSubscription) {
+						if en.Slot == d.Slot && en.CommitteeIndex == d.CommitteeIndex {
+							covered = true
+						}
+					}
+				}
+				if !covered {
+					return Viol("C14/future-duty-not-subscribed", "duties for epoch %d obtained by the controller at %v (current slot %d) give validator %d a duty in future slot %d committee %d, but no subscription request from then on contains that slot/committee", f.Epoch, f.EndT, cur, d.ValidatorIndex, d.Slot, d.CommitteeIndex)
+				}
+				out.Probes["controller-duty-covered-by-subscription"]++
 			}
 		}
 	}
